@@ -58,6 +58,25 @@ FINDING_18 = 'C12-interrupt-between-ei-and-ret-uses-18-stack-bytes'
 
 PROGRESS = re.compile(r'\[[ 0-9.]+%\]\x08+')
 
+_DOC = {}
+
+def documented_stack_bytes():
+    """The number N in the sentence of the bin2tap.py documentation "Stack operations will overwrite the bytes in the address range
+    STACK-N to STACK-1 inclusive" of the tree under test (14 at the pinned commit). Read from the documentation so that the
+    exclusion is exactly "the documented stack bytes", whatever the documentation says."""
+    if 'n' not in _DOC:
+        n = G.STACK_BYTES
+        try:
+            from vk import paths
+            with open(os.path.join(paths.REPO, 'sphinx', 'source', 'commands.rst'), encoding='utf-8') as f:
+                m = re.search(r'address\s+range\s+STACK-(\d+)\s+to\s+STACK-1\s+inclusive', f.read())
+            if m and 4 <= int(m.group(1)) <= 64:
+                n = int(m.group(1))
+        except OSError:
+            pass
+        _DOC['n'] = n
+    return _DOC['n']
+
 def plan(tier, seed):
     n = 16
     q = tier == 'quick'
@@ -168,7 +187,7 @@ def classify(spec, problems, facts=None):
         # RET; a frame interrupt accepted between EI and RET finds SP at STACK-4 (or STACK-2) and its 14 bytes of pushes and calls
         # reach down to STACK-18 (STACK-16) - four more bytes than the documented "STACK-14 to STACK-1".
         st = spec['eff_stack']
-        if facts['bad_addrs'] and all(st - 18 <= a < st - G.STACK_BYTES for a in facts['bad_addrs']):
+        if facts['bad_addrs'] and all(st - 18 <= a < st - documented_stack_bytes() for a in facts['bad_addrs']):
             return FINDING_18
     if spec['clear'] is None and G.prefill_overlap(spec) == 'head':
         # The last four stack bytes [STACK-4, STACK) begin below BEGIN (STACK = BEGIN+1..BEGIN+3): bin2tap must put the part of
@@ -219,7 +238,8 @@ def check_case(shard, spec, cfg, tag='', stem='p'):
         shard.violation('snapshot written by tap2sna is not well formed: %s\n%s' % (e, ctx), rp)
         return False, 0
     shard.inc('events:snapshots_decoded')
-    exp = G.expected(spec)
+    exp = G.expected(spec, stack_bytes=documented_stack_bytes())
+    shard.hist('documented_stack_bytes', documented_stack_bytes())
     mem = Mem(snap)
     problems = []
     facts = None
@@ -341,7 +361,7 @@ def record_dims(shard, spec, cfg, compared):
         ov = G.prefill_overlap(spec)
         shard.hist('last_four_stack_bytes_vs_data', ov)
         st, eb, ee = spec['eff_stack'], spec['eff_begin'], spec['eff_end']
-        if st - G.STACK_BYTES < ee and st > eb:
+        if st - documented_stack_bytes() < ee and st > eb:
             shard.inc('observed:data_inside_the_14_stack_bytes')
         if eb < G.LOADER48[1] and ee > G.LOADER48[0]:
             shard.inc('observed:data_over_the_loader_at_23296')
